@@ -471,3 +471,116 @@ _run_c12 = run
 def run(ctx, R):
     _run_c12(ctx, R)
     r127(ctx, R)
+    r128(ctx, R)
+
+
+def flag_truthful(ctx, f, name, depth=0):
+    """(ok, why): every value ``name`` can take in f is False, True after a
+    Consumer.create() of this function that returned normally, or the
+    truthful flag of a callee (by position in its returned tuple)."""
+    if depth > 3:
+        return False, 'recursion'
+    g = cfgmod.cfg_of(f)
+    defs = []
+    for n in own_nodes(f.node):
+        if isinstance(n, ast.Assign):
+            for t in n.targets:
+                if isinstance(t, ast.Name) and t.id == name:
+                    defs.append((n, n.value, None))
+                if isinstance(t, ast.Tuple):
+                    for i, e in enumerate(t.elts):
+                        if isinstance(e, ast.Name) and e.id == name:
+                            defs.append((n, n.value, i))
+        if isinstance(n, (ast.AugAssign, ast.AnnAssign)) and isinstance(
+                n.target, ast.Name) and n.target.id == name:
+            return False, 'augmented assignment of %s' % name
+    if not defs:
+        return False, 'no definition of %s' % name
+    creates = [C.stmt_of(s_.node) for s_ in ctx.cg.calls_in(f)
+               if any(c.qbase == CONS_CREATE for c in s_.callees)]
+    for st, v, pos in defs:
+        if pos is None and isinstance(v, ast.Constant) and v.value is False:
+            continue
+        if pos is None and isinstance(v, ast.Constant) and v.value is True:
+            ok = False
+            for cs in creates:
+                if not g.dominates(cs, st):
+                    continue
+                # not reachable from a handler of a try around the create
+                handlers = []
+                for t in C.enclosing_trys(cs, f.node):
+                    for h in t.handlers:
+                        handlers.extend(h.body[:1])
+                reach = g.reachable_from(handlers) if handlers else set()
+                if st not in reach:
+                    ok = True
+            if not ok:
+                return False, 'line %d sets %s = True without a ' \
+                    'Consumer.create() of this request having succeeded ' \
+                    'on every path to it' % (st.lineno, name)
+            continue
+        if pos is not None and isinstance(v, ast.Call):
+            s_ = ctx.cg.site_of.get(v)
+            if s_ is None or len(s_.callees) != 1:
+                return False, 'line %d: flag from an unresolved call' % \
+                    st.lineno
+            callee = s_.callees[0]
+            names = set()
+            for r in own_nodes(callee.node):
+                if isinstance(r, ast.Return):
+                    if not (isinstance(r.value, ast.Tuple) and len(
+                            r.value.elts) > pos and isinstance(
+                                r.value.elts[pos], ast.Name)):
+                        return False, '%s does not return a flag name at ' \
+                            'position %d' % (callee.qbase, pos)
+                    names.add(r.value.elts[pos].id)
+            if not names:
+                return False, '%s returns nothing' % callee.qbase
+            for nm in sorted(names):
+                ok, why = flag_truthful(ctx, callee, nm, depth + 1)
+                if not ok:
+                    return False, '%s: %s' % (callee.qbase.split(':')[1],
+                                              why)
+            continue
+        return False, 'line %d: %s = %s' % (st.lineno, name, src(v)[:40])
+    return True, 'False, or True only after a successful create()'
+
+
+def r128(ctx, R, rule='R12.8'):
+    """The flag that licenses the removal of an auto-created consumer is
+    true only when this request's Consumer.create() succeeded."""
+    f = ctx.prog.func(ENSURE)
+    rets = [r for r in own_nodes(f.node) if isinstance(r, ast.Return)]
+    names = set()
+    shape = bool(rets)
+    for r in rets:
+        if isinstance(r.value, ast.Tuple) and len(r.value.elts) == 3 and \
+                isinstance(r.value.elts[1], ast.Name):
+            names.add(r.value.elts[1].id)
+        else:
+            shape = False
+    ok, why = False, 'ensure_consumer does not return (consumer, flag, attrs)'
+    if shape and len(names) == 1:
+        ok, why = flag_truthful(ctx, f, sorted(names)[0])
+    R.ob(rule, 'ensure_consumer:created-flag-truthful', ok,
+         'the created-new-consumer flag (which licenses deleting the '
+         'consumer when the write fails) is true only after a '
+         'Consumer.create() of this request returned normally; a consumer '
+         'found or lost to a racing creator is never reported as created',
+         why, func=f)
+    # the handlers' cleanup is conditioned on that flag
+    n = 0
+    for s_ in [x for g in ctx.prog.funcs for x in ctx.cg.calls_in(g)
+               if f in x.callees]:
+        g = s_.caller
+        st = C.stmt_of(s_.node)
+        if not (isinstance(st, ast.Assign) and isinstance(
+                st.targets[0], ast.Tuple) and len(
+                    st.targets[0].elts) == 3 and isinstance(
+                        st.targets[0].elts[1], ast.Name)):
+            R.ob(rule, '%s:unpacks-flag' % g.qbase, False,
+                 'callers unpack (consumer, created, attrs)', src(st)[:60],
+                 func=g, node=st)
+            continue
+        n += 1
+    R.count(rule, n, 2)
